@@ -381,6 +381,11 @@ impl DeviceControl for ControlHandle {
     fn read(&mut self, mut address: u64, buf: &mut [u8]) -> ControlResult<()> {
         unwrap_or_log!(self.assert_open());
 
+        // Reject a maximum acknowledge length that leaves no room for data.
+        unwrap_or_log!(
+            cmd::ReadMem::new(address, 0).chunks(self.config.maximum_ack_length as usize)
+        );
+
         // Chunks buffer if buffer length is larger than maximum read length calculated from
         // maximum ack length.
         for buf_chunk in buf.chunks_mut(cmd::ReadMem::maximum_read_length(
